@@ -73,6 +73,8 @@ def check_case(case, ctr):
                for j in ref.upper_covers(k)}
         scratch = ctx.neighbors(q)
         del scratch[:]                      # a returned list is the caller's to change
+        scratch = ctx.neighbors(q, True)
+        del scratch[:]
         got = ctx.neighbors(q)
         raw = ctx.neighbors(q, True)        # raw is the documented second positional parameter
         ctr['calls'] += 3
@@ -99,9 +101,43 @@ def check_case(case, ctr):
     return V
 
 
+def check_char_case(case, ctr):
+    """One-character labels: a str is a collection of object labels."""
+    from ..refmodel import powerset
+    V = []
+    ref, ctx = case.ref, case.ctx
+    for arg in powerset(range(case.n)):
+        s = ''.join(case.objs[i] for i in reversed(arg))
+        k = ref.index_of_extent(ref.closure_objs(arg))
+        exp = {(case.olab(ref.concepts[j][0]), case.plab(ref.concepts[j][1]))
+               for j in ref.upper_covers(k)}
+        got = ctx.neighbors(s)
+        ctr['calls'] += 1
+        if {(tuple(a), tuple(b)) for a, b in got} != exp or len(got) != len(exp):
+            V.append(common.violation(ID, 'context-neighbors', case.ident(query=s, form='str'),
+                                      sorted(exp), got))
+            break
+    return V
+
+
 def run_shard(shard, tier):
-    return e1.run_shard_generic(shard, tier, ID, check_case, variants=('pickle', 'fromdict-raw'),
-                                both_labelings=shard[0] != 'P')
+    res = e1.run_shard_generic(shard, tier, ID, check_case, variants=('pickle', 'fromdict-raw'),
+                               both_labelings=shard[0] != 'P')
+    if shard[0] == 'S' and shard[1] * shard[2] <= 9:
+        import collections
+        from .. import space
+        ctr = collections.Counter()
+        for n, m, rows, tag in space.tables_of_shard(shard):
+            case = e1.Case(rows, tag, space.CHAR)
+            try:
+                vs = check_char_case(case, ctr)
+            except Exception as e:
+                vs = [common.library_exception(ID, case.ident(), e)]
+            ctr['evaluations'] += 1
+            res['violations'].extend(vs[:2])
+        for k_, v_ in ctr.items():
+            res['counters'][k_] = res['counters'].get(k_, 0) + v_
+    return res
 
 
 def main(tier):
@@ -109,4 +145,11 @@ def main(tier):
 
 
 def replay(v):
+    if v['case'].get('labeling') == 'char':
+        import collections
+        case = e1.case_from_ident(v['case'])
+        try:
+            return check_char_case(case, collections.Counter())
+        except Exception as e:
+            return [common.library_exception(ID, v['case'], e)]
     return e1.replay_e1(__import__(__name__, fromlist=['x']), v)
